@@ -23,7 +23,8 @@
      committed_was_marked, store_backwards_only_after_reset, mark_never_lowers,
      reset_never_raises, next_offset_is_pending_or_initial,
      mark_during_flight_is_recommitted, pending_mark_is_sent_by_next_commit,
-     closed_and_accepted_implies_store_equals_last_mark
+     closed_and_accepted_implies_store_equals_last_mark,
+     close_gives_up_only_after_retry_max_refusals (attempts counted per partition)
    Shutdown family (mode "sd", for C12: closing at any moment completes, nothing panics):
      sd_ret    who, p, hang, panic          an awaited Close / AsyncClose / Commit call returned, or the
                                             quiescence-aware watchdog gave up on it (hang)
@@ -35,9 +36,9 @@ EXTENDS Integers, Sequences, FiniteSets, TLC, Json
 Trace == ndJsonDeserialize("trace.ndjson")
 
 VARIABLES l, viol, cfg, pend, asked, touched, store, winLow, accLow, inFlight, flightMark,
-          reqs, closing, joined, finalsOk, st
+          reqs, closing, joined, finalsOk, refused, st
 vars == <<l, viol, cfg, pend, asked, touched, store, winLow, accLow, inFlight, flightMark,
-          reqs, closing, joined, finalsOk, st>>
+          reqs, closing, joined, finalsOk, refused, st>>
 
 E == Trace[l]
 V(c) == {<<E.t, E.i, c>>}
@@ -54,7 +55,7 @@ Expected(x) == IF x.off >= 0 THEN x ELSE Pos(cfg.initial, "")
 NoCfg == [mode |-> "none", auto |-> FALSE, retry |-> 0, initial |-> -1]
 Stat0 == [traces |-> 0, marks |-> 0, effective |-> 0, flight_marks |-> 0, requests |-> 0,
           blocks |-> 0, flight_recommitted |-> 0, backwards_after_reset |-> 0, next_reads |-> 0,
-          closes_premise |-> 0, closes |-> 0, faulty_requests |-> 0,
+          closes_premise |-> 0, closes |-> 0, faulty_requests |-> 0, closes_retried_partial_refusal |-> 0, closes_exhausted |-> 0,
           sd_returns |-> 0, sd_hangs |-> 0, sd_panics |-> 0, sd_errors_channels_closed |-> 0]
 Bump(f) == [st EXCEPT ![f] = @ + 1]
 BumpBy(s, f, n) == [s EXCEPT ![f] = @ + n]
@@ -62,7 +63,7 @@ BumpBy(s, f, n) == [s EXCEPT ![f] = @ + n]
 Init == /\ l = 1 /\ viol = {} /\ cfg = NoCfg
         /\ pend = <<>> /\ asked = <<>> /\ touched = <<>> /\ store = <<>> /\ winLow = <<>> /\ accLow = <<>>
         /\ inFlight = FALSE /\ flightMark = <<>> /\ reqs = 0 /\ closing = FALSE /\ joined = FALSE
-        /\ finalsOk = TRUE /\ st = Stat0
+        /\ finalsOk = TRUE /\ refused = <<>> /\ st = Stat0
 
 TReset ==
   /\ E.ev = "reset"
@@ -77,6 +78,7 @@ TReset ==
         /\ winLow' = [p \in ps |-> Inf]
         /\ accLow' = [p \in ps |-> Inf]
         /\ flightMark' = [p \in ps |-> FALSE]
+        /\ refused' = [p \in ps |-> 0]
   /\ inFlight' = FALSE /\ reqs' = 0 /\ closing' = FALSE /\ joined' = FALSE /\ finalsOk' = TRUE
   /\ st' = Bump("traces")
   /\ UNCHANGED viol
@@ -108,7 +110,7 @@ TMarkLike(isMark) ==
      ELSE UNCHANGED <<pend, asked, touched, flightMark, winLow>>
   /\ st' = BumpBy(BumpBy(BumpBy(st, "marks", 1), "effective", IF eff THEN 1 ELSE 0),
                   "flight_marks", IF eff /\ inFlight THEN 1 ELSE 0)
-  /\ UNCHANGED <<cfg, store, accLow, inFlight, reqs, closing, joined, finalsOk>>
+  /\ UNCHANGED <<cfg, store, accLow, inFlight, reqs, closing, joined, finalsOk, refused>>
 
 TMark == E.ev = "mark" /\ TMarkLike(TRUE)
 TResetOff == E.ev = "resetoff" /\ TMarkLike(FALSE)
@@ -117,12 +119,12 @@ TNext ==
   /\ E.ev = "next"
   /\ viol' = viol \cup When(E.p \in Parts /\ Pos(E.off, E.meta) # Expected(pend[E.p]), "next_offset_is_pending_or_initial")
   /\ st' = Bump("next_reads")
-  /\ UNCHANGED <<cfg, pend, asked, touched, store, winLow, accLow, inFlight, flightMark, reqs, closing, joined, finalsOk>>
+  /\ UNCHANGED <<cfg, pend, asked, touched, store, winLow, accLow, inFlight, flightMark, reqs, closing, joined, finalsOk, refused>>
 
 TCommitCall ==
   /\ E.ev = "commit_call"
   /\ reqs' = 0 /\ inFlight' = FALSE
-  /\ UNCHANGED <<viol, cfg, pend, asked, touched, store, winLow, accLow, flightMark, closing, joined, finalsOk, st>>
+  /\ UNCHANGED <<viol, cfg, pend, asked, touched, store, winLow, accLow, flightMark, closing, joined, finalsOk, refused, st>>
 
 \* positions that are pending but not stored: the next commit has to carry them
 Unsent(blocks) == {p \in Parts : pend[p] # store[p] /\ <<p, pend[p].off, pend[p].meta>> \notin blocks}
@@ -135,7 +137,7 @@ TCommitRet ==
   \* Commit() returned without having sent anything although a position is pending
   /\ viol' = viol \cup (IF cfg.mode \in {"seq", "win"} /\ reqs = 0 THEN UnsentClauses(Unsent({})) ELSE {})
   /\ inFlight' = FALSE
-  /\ UNCHANGED <<cfg, pend, asked, touched, store, winLow, accLow, flightMark, reqs, closing, joined, finalsOk, st>>
+  /\ UNCHANGED <<cfg, pend, asked, touched, store, winLow, accLow, flightMark, reqs, closing, joined, finalsOk, refused, st>>
 
 \* an OffsetCommit request reached the coordinator; E.applied is what it stored
 TCreq ==
@@ -156,6 +158,8 @@ TCreq ==
      /\ accLow' = [p \in Parts |-> IF p \in ap THEN winLow[p] ELSE Min(accLow[p], winLow[p])]
      /\ winLow' = [p \in Parts |-> Inf]
      /\ finalsOk' = IF closing THEN finalsOk /\ allok ELSE finalsOk
+     \* final attempts that carried p and did not get it stored
+     /\ refused' = [p \in Parts |-> IF closing /\ p \notin ap /\ (\E b \in blocks : b[1] = p) THEN refused[p] + 1 ELSE refused[p]]
      /\ flightMark' = [p \in Parts |-> IF p \in recommitted THEN FALSE ELSE flightMark[p]]
      /\ st' = BumpBy(BumpBy(BumpBy(BumpBy(BumpBy(st, "requests", 1), "blocks", Cardinality(blocks)),
                      "flight_recommitted", Cardinality(recommitted)),
@@ -168,6 +172,7 @@ TCreq ==
 TCloseCall ==
   /\ E.ev = "close_call"
   /\ closing' = TRUE /\ joined' = E.joined /\ finalsOk' = TRUE /\ inFlight' = FALSE /\ reqs' = 0
+  /\ refused' = [p \in Parts |-> 0]
   /\ UNCHANGED <<viol, cfg, pend, asked, touched, store, winLow, accLow, flightMark, st>>
 
 \* Close returned: auto-commit, markers joined before Close, every final attempt accepted
@@ -176,20 +181,28 @@ TCloseRet ==
   /\ LET premise == cfg.auto /\ joined /\ finalsOk IN
      /\ viol' = viol \cup When(premise /\ \E p \in Parts : touched[p] /\ store[p] # pend[p],
                                "closed_and_accepted_implies_store_equals_last_mark")
-     /\ st' = BumpBy(BumpBy(st, "closes", 1), "closes_premise", IF premise THEN 1 ELSE 0)
-  /\ UNCHANGED <<cfg, pend, asked, touched, store, winLow, accLow, inFlight, flightMark, reqs, closing, joined, finalsOk>>
+          \* no mark is lost at Close unless the final attempts were really exhausted FOR THAT PARTITION:
+          \* Retry.Max + 1 final requests carried it and the coordinator refused it every time
+          \cup When(cfg.auto /\ joined /\ \E p \in Parts : touched[p] /\ store[p] # pend[p] /\ refused[p] < cfg.retry + 1,
+                    "close_gives_up_only_after_retry_max_refusals")
+     /\ st' = BumpBy(BumpBy(BumpBy(BumpBy(st, "closes", 1), "closes_premise", IF premise THEN 1 ELSE 0),
+                     "closes_retried_partial_refusal",
+                     IF cfg.auto /\ joined /\ ~finalsOk /\ (\A p \in Parts : touched[p] => store[p] = pend[p]) THEN 1 ELSE 0),
+                     "closes_exhausted",
+                     IF cfg.auto /\ joined /\ (\E p \in Parts : touched[p] /\ store[p] # pend[p] /\ refused[p] >= cfg.retry + 1) THEN 1 ELSE 0)
+  /\ UNCHANGED <<cfg, pend, asked, touched, store, winLow, accLow, inFlight, flightMark, reqs, closing, joined, finalsOk, refused>>
 
 \* integrity of the simulated coordinator: its store is what the creq events said it applied
 TStore ==
   /\ E.ev = "store"
   /\ viol' = viol \cup When(\E x \in ToSet(E.vals) : x[1] \in Parts /\ store[x[1]] # Pos(x[2], x[3]), "harness_store_mismatch")
-  /\ UNCHANGED <<cfg, pend, asked, touched, store, winLow, accLow, inFlight, flightMark, reqs, closing, joined, finalsOk, st>>
+  /\ UNCHANGED <<cfg, pend, asked, touched, store, winLow, accLow, inFlight, flightMark, reqs, closing, joined, finalsOk, refused, st>>
 
 TNote == /\ E.ev \in {"note", "lookup"}
-         /\ UNCHANGED <<viol, cfg, pend, asked, touched, store, winLow, accLow, inFlight, flightMark, reqs, closing, joined, finalsOk, st>>
+         /\ UNCHANGED <<viol, cfg, pend, asked, touched, store, winLow, accLow, inFlight, flightMark, reqs, closing, joined, finalsOk, refused, st>>
 
 \* ---- shutdown family: the calls were awaited by a quiescence-aware watchdog
-Rest == <<cfg, pend, asked, touched, store, winLow, accLow, inFlight, flightMark, reqs, closing, joined, finalsOk>>
+Rest == <<cfg, pend, asked, touched, store, winLow, accLow, inFlight, flightMark, reqs, closing, joined, finalsOk, refused>>
 TSdRet ==
   /\ E.ev = "sd_ret"
   /\ viol' = viol \cup When(E.hang, "close_hang") \cup When(E.panic # "", "close_panic")
@@ -210,7 +223,7 @@ TErrorsClosed ==
 TEnd == /\ E.ev = "end"
         /\ PrintT(<<"VIOL", ToJson(viol)>>)
         /\ PrintT(<<"STATS", ToJson(st)>>)
-        /\ UNCHANGED <<viol, cfg, pend, asked, touched, store, winLow, accLow, inFlight, flightMark, reqs, closing, joined, finalsOk, st>>
+        /\ UNCHANGED <<viol, cfg, pend, asked, touched, store, winLow, accLow, inFlight, flightMark, reqs, closing, joined, finalsOk, refused, st>>
 
 Next == /\ l <= Len(Trace)
         /\ l' = l + 1
